@@ -92,7 +92,7 @@ def run(rep, facts, tier):
     rep.floor('C06.R2 offset write in move_offset_checked', len(sets), 1)
     from .c08 import guard_facts
     for bb, t in sets:
-        lower = upper = False
+        upper = False
         for (op, a, b) in guard_facts(mf, bb):
             if op not in ('Le', 'Ge', 'Lt', 'Gt'):
                 continue
@@ -100,29 +100,28 @@ def run(rep, facts, tier):
                 op, a, b = {'Ge': 'Le', 'Gt': 'Lt'}[op], b, a
             sa, sb = expr_str(zstrip(a), -20), expr_str(zstrip(b), -20)
             src_ok = CURRENT_INPUT in expr_str(zstrip(a), -40) + expr_str(zstrip(b), -40)
-            if op == 'Le' and 'Bitstr::start' in sa and 'arg2' in sb and 'Bitstr' not in sb and src_ok:
-                lower = True          # input.start() <= pos
-            if op == 'Le' and 'arg2' in sa and 'Bitstr' not in sa and 'Bitstr::end' in sb and src_ok:
-                upper = True          # pos <= input.end()
+            if op == 'Le' and 'arg2' in sa and 'Bitstr' not in sa and 'Bitstr::len' in sb and src_ok:
+                upper = True          # pos <= input.len(): the offset counts bits of the value (C04.R4), so 0 is the lower bound
         # value written is the checked position
         val = expr_str(mf.expr_of_operand(t['args'][2]))
         same = 'arg2' in val
-        rep.add('C06.R2', 'C06.R2:move_offset_checked:bounded', lower and upper and same,
-                'set_var(offset, pos) runs only if input.start() <= pos and pos <= input.end(), and writes that pos'
-                if lower and upper and same else
-                'offset write not bounded by the current input (lower=%s upper=%s writes-checked-pos=%s)' % (lower, upper, same),
+        rep.add('C06.R2', 'C06.R2:move_offset_checked:bounded', upper and same,
+                'set_var(offset, pos) runs only if pos <= input.len(), and writes that pos'
+                if upper and same else
+                'offset write not bounded by the length of the current input (upper=%s writes-checked-pos=%s)' % (upper, same),
                 MOVE, t.get('at'))
     fx.need('bitstr_ext::open_bitstr')
     of = V('bitstr_ext::open_bitstr')
     off_sets = [(bb, t) for bb, t in of.calls() if callee_of(t) in WRITERS and cell_of(of, t['args'][1]) == 'offset']
     in_sets = [(bb, t) for bb, t in of.calls() if callee_of(t) in WRITERS and cell_of(of, t['args'][1]) == 'input']
     for bb, t in off_sets:
-        v = expr_str(of.expr_of_operand(t['args'][2]))
-        ok = 'Bitstr::start(&arg2)' in v
+        ev = zstrip(of.expr_of_operand(t['args'][2]))
+        v = expr_str(ev)
+        ok = _is_zero_cell(fx, ev)
         ok2 = any('arg2' in expr_str(of.expr_of_operand(t2['args'][2])) for _, t2 in in_sets)
         rep.add('C06.R2', 'C06.R2:open_bitstr:offset-is-start-of-new-input', ok and ok2,
-                'open writes offset = s.start() and input = s for the same s' if ok and ok2 else
-                'open_bitstr writes offset %s which is not start() of the bit-string it installs as input' % v[:60],
+                'open writes offset = 0 (no bits consumed) and input = s' if ok and ok2 else
+                'open_bitstr writes offset %s which is not the start (0 bits consumed) of the bit-string it installs as input' % v[:60],
                 of.name, t.get('at'))
 
     # ---------- R3
@@ -157,9 +156,11 @@ def run(rep, facts, tier):
                  'the stack limit is not tested before the offset moves, so the final push can fail after the commit'),
                 COMMIT, t.get('at'))
         # the position and the pushed value are the caller's
-        ok_args = 'arg2' in expr_str(cf.expr_of_operand(t['args'][1]))
+        em = zstrip(cf.expr_of_operand(t['args'][1]))
+        ok_args = _is_offset_plus(em, ('arg', 2))
         rep.add('C06.R3', 'C06.R3:commit_read:moves-to-its-argument', ok_args,
-                'moves to exactly the `end` it was given' if ok_args else 'commit_read moves to something else than its `end` argument',
+                'moves to current offset + the `nbits` it was given' if ok_args else
+                'commit_read moves to %s, which is not the current offset plus its `nbits` argument' % expr_str(em, -12)[:80],
                 COMMIT, t.get('at'))
     # push_data's only error source is the limit test
     pf = fx.need('state::State::push_data')
@@ -222,28 +223,31 @@ def run(rep, facts, tier):
             s_end = _s(e_end)
             # the position IS end() of the peeked slice (or the end nulbytestr_peek computed) — not merely computed from it
             top = zstrip(e_end)
-            from_peek_end = (isinstance(top, tuple) and top[0] == 'call' and top[1] == 'bitstr::Bitstr::end' and _mentions(top, PEEKS)) \
+            from_peek_end = (isinstance(top, tuple) and top[0] == 'call' and top[1] == 'bitstr::Bitstr::len' and _mentions(top, PEEKS)) \
                 or (isinstance(top, tuple) and top[0] == 'proj' and _mentions(top, {'bitstr_ext::nulbytestr_peek'}) and not _has_arith(top))
             val_from_peek = _mentions(e_val, PEEKS)
-            rep.add('C06.R3', key + ':advance-is-end-of-peeked-slice', from_peek_end,
-                    'commit position is .end() of the slice peek returned' if from_peek_end else
-                    'commit position %s is not the end of the peeked slice: the offset does not move by exactly n' % s_end[:70], fn, t.get('at'))
+            rep.add('C06.R3', key + ':advance-is-length-of-peeked-slice', from_peek_end,
+                    'the cursor advances by .len() of the slice peek returned' if from_peek_end else
+                    'advance %s is not the length of the peeked slice: the offset does not move by exactly n' % s_end[:70], fn, t.get('at'))
             rep.add('C06.R3', key + ':value-from-peeked-slice', val_from_peek,
                     'pushed value is computed from the peeked slice' if val_from_peek else
                     'pushed value %s does not derive from the peeked slice' % _s(e_val)[:70], fn, t.get('at'))
     rep.floor('C06.R3 readers (callers of peek)', n_readers, 7)
-    # nulbytestr_peek: end = start + len with start = start() of rest, slice = rest.read(len)
+    # nulbytestr_peek: (rest.read(len), len) for the same len, rest = the bits at the cursor
     nf = fx.need('bitstr_ext::nulbytestr_peek')
     okn = False
     for (bb, i, kind, payload) in nf.defs().get(0, []):
         if kind == 'assign':
             e = nf.expr_of_rvalue(payload, 0, frozenset())
-            s = _s(e)
-            if 'Bitstr::read' in s and 'Bitstr::start' in s and 'rest_bits' in s:
-                okn = True
-    rep.add('C06.R3', 'C06.R3:nulbytestr_peek:end-is-start-plus-len', okn,
-            'returns (rest.read(len), rest.start() + len) for the same rest and len' if okn else
-            'nulbytestr_peek result is not (rest.read(len), start+len)', nf.name, nf.j['span'])
+            for x in expr_walk(e):
+                if isinstance(x, tuple) and x[0] == 'agg' and x[1] == 'tuple' and len(x[3]) == 2:
+                    first, second = x[3]
+                    reads = [y for y in expr_walk(first) if isinstance(y, tuple) and y[0] == 'call' and y[1] == 'bitstr::Bitstr::read']
+                    if reads and _mentions(first, {'bitstr_ext::rest_bits'}) and repr(zstrip(reads[0][2][1])) == repr(zstrip(second)):
+                        okn = True
+    rep.add('C06.R3', 'C06.R3:nulbytestr_peek:advance-is-length-read', okn,
+            'returns (rest.read(len), len) for the same rest and len' if okn else
+            'nulbytestr_peek result is not (rest.read(len), len) with one len', nf.name, nf.j['span'])
 
     # ---------- R2 (continued): the sizes and positions a program passes reach the cursor arithmetic unchanged
     from .. import casts
@@ -274,6 +278,36 @@ def _commit_sites(f, wrappers):
             for (e_end, e_val) in wrappers[c]:
                 out.append((bb, t, expr_subst_args(e_end, actuals), expr_subst_args(e_val, actuals)))
     return out
+
+
+def _is_zero_cell(fx, e):
+    """the integer cell 0: the named constant whose initialiser is Cell::Int(0), or Cell::from(0)"""
+    if isinstance(e, tuple) and e[0] == 'const' and isinstance(e[1], dict) and e[1].get('cpath'):
+        e = fx.const_value(e[1]['cpath'])
+    if isinstance(e, tuple) and e[0] == 'call' and 'From<' in e[1] and e[1].startswith('<cell::Cell as') and len(e[2]) == 1:
+        a = zstrip(e[2][0])
+        return isinstance(a, tuple) and a[0] == 'const' and isinstance(a[1], dict) and a[1].get('v') == 0
+    return isinstance(e, tuple) and e[0] == 'agg' and e[1] == 'cell::Cell' and e[2] == 'Int' and len(e[3]) == 1 \
+        and isinstance(e[3][0], tuple) and e[3][0][0] == 'const' and isinstance(e[3][0][1], dict) and e[3][0][1].get('v') == 0
+
+
+def _is_offset_plus(e, what):
+    """e is (current offset) + what, overflow-checked: checked_add(current_offset()?, what)? or the checked `+`"""
+    for x in expr_walk(e):
+        if not isinstance(x, tuple):
+            continue
+        ops = None
+        if x[0] == 'call' and x[1].endswith('::checked_add') and len(x[2]) == 2:
+            ops = x[2]
+        elif x[0] == 'bin' and x[1] in ('Add', 'AddWithOverflow'):
+            ops = x[2:4]
+        if ops is None:
+            continue
+        a, b = zstrip(ops[0]), zstrip(ops[1])
+        for p, q in ((a, b), (b, a)):
+            if _mentions(p, {'bitstr_ext::current_offset'}) and not _has_arith(p) and q == what:
+                return True
+    return False
 
 
 def _has_arith(e):
